@@ -127,16 +127,26 @@ Init == /\ \E k \in Prologues : st = Run(InitState, Prologue[k]) /\ hist = Prolo
         /\ n = 0 /\ bad = {}
 Next == /\ n < MaxN
         /\ \E e \in Alphabet(st, n + 1) :
-             LET r == Step(st, e) IN
+           \E r \in {Step(st, e)} :
              /\ st' = r.st
              /\ n' = n + 1
              /\ bad' = MCFailures(st, e, r)
              /\ hist' = Append(hist, e)
 Spec == Init /\ [][Next]_vars
 
+(* simulation: ONE random successor per step (RandomElement), so a walk costs one Step per entry; *)
+(* the finished walk is printed once as a JSON program                                         *)
+SimNext ==
+  \/ /\ n < MaxN
+     /\ \E e \in {RandomElement(Alphabet(st, n + 1))} :     \* bound once (a LET would be re-evaluated)
+          \E r \in {Step(st, e)} :
+             /\ st' = r.st /\ n' = n + 1 /\ bad' = MCFailures(st, e, r) /\ hist' = Append(hist, e)
+  \/ /\ n = MaxN
+     /\ PrintT(<<"PROGRAM", ToJson(hist)>>)
+     /\ n' = MaxN + 1 /\ UNCHANGED <<st, bad, hist>>
+SimSpec == Init /\ [][SimNext]_vars
+
 NoFailure == bad = {}
 (* the service-bag replies (SERVER burst) are appended for the recipient predicates *)
 
-(* simulation: print each finished behaviour as a JSON program *)
-EmitProgram == (n = MaxN) => PrintT(<<"PROGRAM", ToJson(hist)>>)
 =============================================================================
